@@ -11,7 +11,10 @@ spec -> code
   * parallel behaviours are FORCED on the real loky executor: tasks block on gate files, a
     scheduler thread releases them in TLC's completion order, each only after the master wrote
     the previous record (impl_C14.scheduler);
-  * every record must be identical to the one a single-input run of the same app produces.
+  * every record must be identical to the one a single-input run of the same app produces;
+  * the outcome classes are enacted with several VALUE CLASSES (spec variable `named`): the value a
+    failing step is handed / a `wrong` step returns is a cogent3 object, a dict with or without
+    info/source (incl. "info": None as to_rich_dict() makes), a path string or bytes.
 code -> spec
   * free-running parallel runs with skewed task durations, the forced runs and a sample of the
     serial runs are turned into event traces (time stamps from workers and master) that
@@ -705,6 +708,7 @@ def check(run: Run):
     run.cov["exhaustive"] = False
     run.cov["rule"] = (
         "TLC: all plans over 13 canonical outcome profiles x W in {serial,1,2,3} x all completion orders x all consumption lags "
+        "x (n=2) every assignment of source-naming / non-naming value classes to the inputs "
         "(n=2 exhaustive; n=3 pairwise in quick / exhaustive in thorough; n=4 pairwise in thorough). Real code: every emitted serial "
         "behaviour x {write_seqs, write_json, write_db} x {directory, sqlite} x {member, path inputs}; forced parallel completion "
         "orders (quick: 6 order classes; thorough: every feasible order for n<=4, W<=3, plans drawn from a pairwise-covering set); "
@@ -712,7 +716,10 @@ def check(run: Run):
         "plan, W, completion order) executed on the real code whose plan has at least one failing record"
     )
     run.assumptions += [
-        "test apps (harness/apps_C14.py) keep info.source on the values they return and a wrongly typed value still names its source",
+        "value classes (harness/apps_C14.py): the value handed to a failing step / returned by a `wrong` step is a cogent3 object with info.source, "
+        "a dict with info.source or source, a path string (these name their source), or a dict with info None (to_rich_dict shape), a dict "
+        "without info, bytes (these do not: the spec then only requires the record under the right identifier with source unknown); "
+        "bytes values only with write_db (not JSON serialisable); `wrong` outcomes only in the SequenceCollection-typed family",
         "outcome of a step depends only on the record (its name), not on the schedule",
         "completion order is forced with gate files; consumption is observed at the data store's write methods in the master",
         "dispatch model (FIFO queue, at most W running) is loky's; MPI executor and progress-bar UI are not covered",
